@@ -141,6 +141,7 @@ func runProc(bin string, args []string, env []string, stderrPath string, budget 
 	defer tick.Stop()
 	start := time.Now()
 	baseCPU, baseEpoch := 0.0, -1
+	lastCPU, stallPolls := -1.0, 0
 	var werr error
 loop:
 	for {
@@ -158,7 +159,18 @@ loop:
 			if ep != baseEpoch {
 				baseEpoch, baseCPU = ep, cpu
 			}
+			// a worker all of whose threads sleep, that has no child process and whose CPU time does
+			// not move over 150 consecutive polls (30 s) is blocked for good: a starved but runnable
+			// process would show a runnable thread, one waiting for a child has a child
+			if cpu == lastCPU && allThreadsSleeping(cmd.Process.Pid) {
+				stallPolls++
+			} else {
+				stallPolls = 0
+			}
+			lastCPU = cpu
 			switch {
+			case stallPolls >= 150:
+				kind = "blocked"
 			case rss > rssCeiling:
 				kind = "memory"
 			case budget > 0 && cpu-baseCPU > budget:
@@ -206,6 +218,30 @@ loop:
 	}
 	_ = werr
 	return out
+}
+
+// allThreadsSleeping reports whether every thread of pid is in interruptible sleep and the
+// process has no children.
+func allThreadsSleeping(pid int) bool {
+	tasks, err := os.ReadDir(fmt.Sprintf("/proc/%d/task", pid))
+	if err != nil || len(tasks) == 0 {
+		return false
+	}
+	for _, t := range tasks {
+		b, err := os.ReadFile(fmt.Sprintf("/proc/%d/task/%s/stat", pid, t.Name()))
+		if err != nil {
+			return false
+		}
+		st := string(b)
+		i := strings.LastIndex(st, ")")
+		if i < 0 || i+2 >= len(st) || st[i+2] != 'S' {
+			return false
+		}
+		if c, err := os.ReadFile(fmt.Sprintf("/proc/%d/task/%s/children", pid, t.Name())); err == nil && len(strings.TrimSpace(string(c))) > 0 {
+			return false
+		}
+	}
+	return true
 }
 
 func baseEnv(root string, race bool, work string) []string {
@@ -348,7 +384,7 @@ func Drive(spec *Spec, o DriveOpts) int {
 		})
 		switch out.kind {
 		case "ok":
-		case "hang", "memory", "died":
+		case "hang", "memory", "died", "blocked":
 			// the witness of a crash/hang finding reproduces by killing its process
 			k := out.kind
 			if k == "died" {
@@ -452,6 +488,9 @@ func Drive(spec *Spec, o DriveOpts) int {
 				case "hang":
 					attrs["site"] = hangSite(out.stderr)
 					what = fmt.Sprintf("case %q consumed more than %.0f CPU-seconds without finishing", out.lastID, budget)
+				case "blocked":
+					attrs["site"] = hangSite(out.stderr)
+					what = fmt.Sprintf("case %q blocked: every thread of the worker asleep, no child process, no CPU consumed over 150 consecutive polls", out.lastID)
 				case "memory":
 					what = fmt.Sprintf("case %q drove resident memory above %d MiB", out.lastID, rssCeiling>>20)
 				}
